@@ -76,6 +76,21 @@ NEEDS = {
     "seed_C16e": ("C16", "sample2D with a mask + outside_value + a point outside + a masked node in cell (0,0)", ""),
     "seed_C18e": ("C18", "legacy v1 file naming the forcing file and the grid file in different sections (gridforce vs files): the explicit grid file is dropped",
                   "MISSED by the first run: the v1 units placed both names in the same section. The placements are now independent (37 units instead of 19): deductive detection"),
+    # round 7 (suffix f)
+    "seed_C03f": ("C03", "extra (scalar) forcing + forcing split over files + two consecutive frames with the same record number in different files, e.g. one frame per file (scalar record cache keyed on the record number inside the file, not invalidated when the file changes)",
+                  "caught by the bounded layout sweep; deductively UNDECIDED (the cache attribute `_latest_record` is outside the contract's pre-state)"),
+    "seed_C05f": ("C05", "warm start from a file whose LAST record is empty (everybody dead at the last output time): `ncvar[-pcount:]` with pcount == 0 is the whole variable, so every historical instance is loaded (duplicate pids, the dead alive again, alive/active of length 0)",
+                  "MISSED by the first run: the ghost restart-file variable modelled only `v[a:b]` with given non-negative bounds (UNDECIDED on `v[-n:]`), and C05 did not have warm_start among its units. Python's slice normalisation (negative and open bounds, -0 == 0) is now part of the assumed netCDF4 slice contract, and warm_start is under contract for C05 as well as C08 (deductive detection: the shape of every instance variable is refuted for count == 0)"),
+    "seed_C08f": ("C08", "restart file without alive/active + an IBM that deactivates particles in place (state.active[i] = False) before the first release/compactify after the restart (alive and active are ONE array object after the warm start: deactivating kills)",
+                  "MISSED by the first run: the contract compared the values of the restarted state, not the identity of its arrays. An ownership clause was added to the warm_start contract (every variable of the restarted state is its own array object, as after State.append): deductive detection"),
+    "seed_C09f": ("C09", "sparse layout + the highest-pid particle dies while an older one survives + a later release (pid numbered from the last pid in the state: the dead particle's pid is alive again and reappears in the output)",
+                  "the same slip as seed_C05 reached from C09's text (a pid-accounting defect). First run: refuted by C05's check only (State.append: pid / npid equal specification), C09's own units (tracker, grid) were untouched by it and C09's check was silent; the three State.append units are now units of C09's check too - 'no dead particle reappears' depends on identifiers never being handed out twice (deductive detection by C09 itself)"),
+    "seed_C13f": ("C13", "CF time requested in minutes or hours + an offset from the reference time that is not a whole number of that unit (np.timedelta64(delta, unit) truncates before the division)", ""),
+    "seed_C16f": ("C16", "grid with longitudes in the 0..360 convention above 180 (date line) + release given by lon/lat with a longitude > 180 (release longitudes above 180 folded to lon - 360 before ll2xy)",
+                  "MISSED by the first run: release-table columns were opaque names (UNDECIDED on Series.where). Columns now carry values (row -> real term) with assumed element-wise contracts for arithmetic, comparison, where/mask, .values/.to_numpy/.astype(float)/.copy, and clean_position's postcondition says BY VALUE that the longitude/latitude handed to ll2xy are the ones given in the file (deductive detection, counterexample lon > 180)"),
+    "seed_C17f": ("C17", "a particle whose depth equals exactly the depth of the uppermost rho level of its cell (searchsorted side='right' on the tie returns kmax: zr[kmax], F[kmax] read)", ""),
+    "seed_C18f": ("C18", "grid section omitted + wildcard forcing name whose file-name part starts with * or ? + a hidden (dot) file among the matches that sorts first (glob.glob skips hidden files, Path.glob - used by the forcing module - does not: the grid is read from the second forcing file)",
+                  "MISSED by the first run: the wildcard expansion was covered by one bounded scenario only and the contract units used a plain forcing file name. New units configure_v2 x3 / configure_v1 x4 run the real code against a ghost directory (fixed contents: a hidden first match, ordinary matches, no match) under the documented contracts of Path.glob and glob.glob: the grid file must be the first of what the forcing module's own search (Path.glob) matches (deductive detection)"),
 }
 
 
@@ -100,7 +115,7 @@ def main():
         meta = dict(
             id=sid,
             breaks_property=pid,
-            origin="independent sub-agent, later round: given only the property text, a scratch worktree and the instruction to avoid the site used by the first-round seed and to prefer cooperating edits / histories / boundary values (no access to /verif)",
+            origin="independent sub-agent, later round (suffix f: round 7, 2026-09-28): given only the property text, a scratch worktree and the instruction to avoid the site used by the first-round seed and to prefer cooperating edits / histories / boundary values (no access to /verif)",
             needs_to_manifest=needs,
             confirmed={k: v[k] for k in ("demo_exit_with_patch", "demo_exit_without_patch", "tests_with", "tests_without", "demo_says_violated_with_patch", "demo_says_holds_without_patch") if k in v},
             what_i_ran=["tools/verify_seed.sh: git apply patch.diff in a scratch worktree; demo with and without; pytest with and without",
